@@ -114,6 +114,7 @@ def run(rep, tier, rng):
                             CHIPBUF.hex(), "00%02x%02x" % (ln, off), blen))
                     else:
                         al.append("lwr chip=sx1276 tcxo=- regs=19:%d,16:%d reads=- fill=0 buf=%s | setuprx 2 7 0 868100000 50 | @onirq=64 rxsingle %d" % (ln, off, CHIPBUF.hex(), blen))
+    core.diff_stage(rep, "X:C18:lorawan-adapter", al, lambda c, i, m: None)
     ao = core.run_lines(core.harness_bin(), al)
     bad = 0
     for c, o in zip(al, ao):
